@@ -158,6 +158,7 @@ type Line struct {
 	Same bool     `json:"same"`
 	Pre  []PState `json:"pre"` // 0 or 1 (call returns only)
 	St   PState   `json:"st"`
+	By   string   `json:"by"` // manager mode: "same" / "changed" -- the bystander tables' JSON across this call
 }
 
 // ---- recorder -------------------------------------------------------------------
@@ -173,6 +174,7 @@ type Recorder struct {
 	gids   map[string]int
 	upds   map[int64]int
 	lines  int
+	by     string
 }
 
 func NewRecorder(path string) (*Recorder, error) {
@@ -232,7 +234,8 @@ func (r *Recorder) Emit(ev string, a Args, res string, te pt.TableEngine, t *pt.
 	r.mu.Lock()
 	defer r.mu.Unlock()
 	r.seq++
-	l := Line{Tr: r.tr, N: r.seq, Ev: ev, A: a, Res: res, T: time.Now().Unix(), Same: same, Pre: []PState{}}
+	l := Line{Tr: r.tr, N: r.seq, Ev: ev, A: a, Res: res, T: time.Now().Unix(), Same: same, Pre: []PState{}, By: r.by}
+	r.by = ""
 	if pre != nil {
 		l.Pre = []PState{*pre}
 	}
@@ -420,12 +423,23 @@ func (r *Recorder) project(te pt.TableEngine, t *pt.Table) (ps PState) {
 		ps.Hand = []PHand{r.projectHand(gs)}
 	}
 	ps.Serial = t.UpdateSerial
-	if te != nil {
+	if te = realEngine(te); te != nil {
 		ps.SM = projSMState(pt.VerifSeatManager(te), ps.N)
 		ps.Gate = projGate(pt.VerifOpenGameManager(te))
 		ps.Released = pt.VerifIsReleased(te)
 	}
 	return ps
+}
+
+// realEngine unwraps the manager-routing wrapper (the verif accessors need the engine itself)
+func realEngine(te pt.TableEngine) pt.TableEngine {
+	if w, ok := te.(*mgrEngine); ok {
+		if w.eng() == nil {
+			return nil
+		}
+		return w.eng()
+	}
+	return te
 }
 
 var reSerial = regexp.MustCompile(`"update_serial":\d+,|,"update_at":\d+`)
